@@ -327,6 +327,7 @@ func (v *Verifier) resetRun() {
 	v.constObjs = map[*Object]Value{}
 	v.orNeg = map[ssa.Value]*Term{}
 	v.localNames = map[*Object]string{}
+	v.snapObjs = nil
 	v.allowed = nil
 	v.preamble = ""
 	v.ringFacts = map[string]bool{}
@@ -817,7 +818,23 @@ func (v *Verifier) runPartition(pkg *ssa.Package, fn *ssa.Function, c *Contract,
 			fr.returns[i].st.env()[fn] = fr.returns[i].ret
 		}
 	}
+	// "option split-post": the postconditions are obligations of every returning path separately (small,
+	// path-specific conditions with the ghosts of that path) instead of one obligation over the merged state
+	if c.Options["split-post"] != "" && len(fr.returns) > 1 {
+		for i := range fr.returns {
+			v.postObligations(fr, pkg, fn, c, fr.returns[i].st)
+		}
+		v.frameOn = false
+		return
+	}
 	fin := v.mergeStates(fr.returns)
+	v.postObligations(fr, pkg, fn, c, fin)
+	v.frameOn = false
+}
+
+// postObligations evaluates the ghost-final definitions and the ensures clauses in a final state.
+func (v *Verifier) postObligations(fr *Frame, pkg *ssa.Package, fn *ssa.Function, c *Contract, fin *State) {
+	rs := fn.Signature.Results()
 	vars := map[string]Value{}
 	for k, x := range fr.params {
 		vars[k] = x
@@ -825,6 +842,7 @@ func (v *Verifier) runPartition(pkg *ssa.Package, fn *ssa.Function, c *Contract,
 	if ret, ok := fin.env()[fn]; ok {
 		if tv, isT := ret.(*TupleV); isT && rs.Len() > 1 {
 			for i, e := range tv.Elems {
+				e = wrapTyped(e, rs.At(i).Type())
 				vars[fmt.Sprintf("result%d", i)] = e
 				if n := rs.At(i).Name(); n != "" && n != "_" {
 					if _, clash := vars[n]; !clash {
@@ -833,6 +851,9 @@ func (v *Verifier) runPartition(pkg *ssa.Package, fn *ssa.Function, c *Contract,
 				}
 			}
 		} else {
+			if rs.Len() == 1 {
+				ret = wrapTyped(ret, rs.At(0).Type())
+			}
 			vars["result"] = ret
 			if rs.Len() == 1 {
 				if n := rs.At(0).Name(); n != "" && n != "_" {
@@ -854,7 +875,6 @@ func (v *Verifier) runPartition(pkg *ssa.Package, fn *ssa.Function, c *Contract,
 		g := pe.evalBool(e.E)
 		fr.oblige(fin, "post:"+e.Name, g, e.E.Src)
 	}
-	v.frameOn = false
 }
 
 // ---------- reporting ----------
